@@ -157,7 +157,9 @@ func PEP440(quick bool) []string {
 func RubyGems(quick bool) []string {
 	release := []string{"1", "1.0", "1.0.0", "1.2", "1.2.3", "1.2.3.4", "2", "0.9", "1.10", "1.0.0.0", "0", "1.2.0", "1.2.3.0"}
 	pre := []string{"", ".a", ".b", ".a.1", ".a.2", ".a1", ".rc1", ".rc.1", ".pre", ".pre.1", "-a", "-1", ".a.0", ".a.0.b", "a", "b2", ".A", ".a.b", ".beta.10", ".beta.9",
-		".a.10", ".a.9", "-a.1", ".a-1", ".a1b", ".1a", "rc", ".a.0.0", ".b.0", "-2", "-a-b"}
+		".a.10", ".a.9", "-a.1", ".a-1", ".a1b", ".1a", "rc", ".a.0.0", ".b.0", "-2", "-a-b",
+		// zeros spelled with several digits
+		".a.00", ".a.00.1", ".a.0.00", ".b.000", ".a.00.b"}
 	out := product(release, pre)
 	// more plain releases (1-4 components) for the release-only clauses
 	nums := []string{"0", "1", "2", "10"}
